@@ -370,7 +370,13 @@ def gen_session(seed, idx, extended=False):
     if rnd.random() < 0.12:
         target['via'] = 'main'
         target['share'] = False
-    n = rnd.choice((1, 1, 2, 2, 3, 3, 4, 5, 6)) if rnd.random() < 0.95 else rnd.randint(7, 12)     # a few long histories
+    rlen = rnd.random()
+    if rlen < 0.94:
+        n = rnd.choice((1, 1, 2, 2, 3, 3, 4, 5, 6))
+    elif rlen < 0.99:
+        n = rnd.randint(7, 12)          # a few long histories
+    else:
+        n = rnd.randint(20, 40)         # and very long ones: caches that misbehave only when they fill up or evict
     ops = []
     tags = set()
     for j in range(n):
